@@ -44,6 +44,15 @@ def nondegenerate_cfg(rng, cnf=False):
 
 def gen_cases(rng, n_per_kind, n_perturb):
     cases = []
+    # minimal-DFA exercises whose reference is a counter modulo m with m above the length bound: a much smaller automaton (only the empty
+    # word) has the same words up to the bound, so only the state count can reject it
+    for kind in ('minimal', 'hopcroft'):
+        for _ in range(max(1, n_per_kind // 8)):
+            length = rng.choice([3, 4])
+            m = length + rng.randint(2, 4)
+            D = {'Q': ['q%d' % i for i in range(m)], 'Sigma': ['a'], 'delta': [['q%d' % i, 'a', 'q%d' % ((i + 1) % m)] for i in range(m)], 'q0': 'q0', 'F': ['q0']}
+            small = 'states s0 s1\ninitial s0\nfinal s0\ninput_symbols a\ns0 s1 a\ns1 s1 a'
+            cases.append({'ex': kind, 'seed': rng.randrange(10 ** 9), 'perturb': min(n_perturb, 1), 'length': length, 'D': D, 'max_states': 0, 'extra_answers': [small]})
     for kind in KINDS:
         for _ in range(n_per_kind):
             c = {'ex': kind, 'seed': rng.randrange(10 ** 9), 'perturb': n_perturb, 'length': rng.choice([3, 4]) if kind != 'dfa2regexp' else rng.choice([3, 4, 6, 6])}
@@ -317,13 +326,21 @@ def observe(c):
         return {'answers': [], 'setup_error': '%s: %s' % (type(e).__name__, e), 'info': info}
     finally:
         pass
-    answers = [{'text': own, 'own': True}]
+    answers = [{'text': own, 'own': True}] + [{'text': t, 'own': False} for t in c.get('extra_answers', [])]
     for _ in range(c['perturb']):
         t = own
         for _ in range(rng.choice([1, 1, 1, 2])):
             t = perturb_text(rng, t)
         if t != own:
             answers.append({'text': t, 'own': False})
+    if ex.startswith('chomsky') and c['perturb']:
+        # the own answer plus an unused variable that copies the alternatives of the start variable (the language is unchanged; when the start
+        # variable has an epsilon rule the copy is an epsilon rule of a NON-start variable, which no phase from 2 on may accept)
+        ls = [l for l in own.strip().split('\n') if l.strip()]
+        sl = [l for l in ls if l.split('->')[0].strip() == info['start']]
+        free = [x for x in 'QWXYKLMN' if all(x not in l for l in ls)]
+        if sl and free:
+            answers.append({'text': '\n'.join(ls + [free[0] + ' ->' + sl[0].split('->', 1)[1]]), 'own': False})
     if ex in ('deriv_left', 'deriv_right') and c['perturb'] and info.get('accepted'):
         # a correct derivation in the other order (accepted only if the two coincide)
         other = 'rightmost' if ex == 'deriv_left' else 'leftmost'
